@@ -1663,10 +1663,20 @@ class AclMachine(Machine):
         if cfg["p_group"] and cfg["members_known"]:
             members = gen.gen_member_sets(w, platform)
         self._specs = [s for s in specs if s]
-        return dict(op="create_acl", platform=platform, version=cfg["version"], type=type_,
-                    name=w.choice(["A1", "ACL-2", "in_x"]), indent=cfg["indent"],
-                    group_by=cfg["group_by"], port_nr=cfg["port_nr"],
-                    protocol_nr=cfg["protocol_nr"], lines=lines, members=members)
+        first = getattr(self, "_first_create", None)
+        if first is not None and first["members"] and w.random() < 0.5:
+            # "the same templated ACL on a second device": the very lines of the first ACL, the
+            # same group names, other members (what the text does not carry)
+            self.probes["template_twin_created"] += 1
+            return dict(copy.deepcopy(first), name="DEV2",
+                        members=gen.gen_member_sets(w, platform))
+        op = dict(op="create_acl", platform=platform, version=cfg["version"], type=type_,
+                  name=w.choice(["A1", "ACL-2", "in_x"]), indent=cfg["indent"],
+                  group_by=cfg["group_by"], port_nr=cfg["port_nr"],
+                  protocol_nr=cfg["protocol_nr"], lines=lines, members=members)
+        if first is None:
+            self._first_create = copy.deepcopy(op)
+        return op
 
     def _gen_create_cfg(self, w):
         """Two ACLs and the address groups they reference, as one device configuration."""
@@ -1729,7 +1739,16 @@ class AclMachine(Machine):
                             **copy.deepcopy(self.SEED_ACLS[cfg["seed_acl"]]))
             return self._gen_create(w)
         if cfg.get("two_clients") and len(self.slots) < 2 and s.random() < 0.25:
-            return self._gen_create(w)
+            op = self._gen_create(w)
+            if op.get("name") == "DEV2":
+                # both devices' ACLs go through the same operation, one after the other
+                kind2 = {"C02": "set_platform", "C19": "ungroup_ports", "C04": "shadow_triple",
+                         "C15": "tcam"}.get(self.prop) or s.choice(
+                    ["set_platform", "ungroup_ports", "shadow_triple", "tcam"])
+                fixed = {"p": "nxos" if cfg["platform"] == "ios" else "ios"} \
+                    if kind2 == "set_platform" else {}
+                self._plan = [(0, kind2, dict(fixed)), (1, kind2, dict(fixed))]
+            return op
         if cfg.get("share_items") and len(self.slots) == 1 and s.random() < 0.2:
             return dict(op="share_items", name="SHARED",
                         group_by=s.choice(["", "", gen.HEAD, self.slots[0]["m"].group_by]))
